@@ -1340,6 +1340,15 @@ func ruleM2(w *world.World, r *report.RuleResult) {
 				r.Fail(key, w.InstrPos(m.dels[0]), name+" removes a store entry without subtracting its size from the memory counter")
 			}
 		}
+		if len(m.dels) > 0 && len(m.subs) > 0 && len(m.updates) == 0 && len(m.clrs) == 0 {
+			// path form: the counter is reduced only for an entry that is there
+			key := name + "|remove-subtracts-only-existing"
+			if bad := subtractWithoutEntry(fn, m); bad != nil {
+				r.Fail(key, w.InstrPos(bad), name+" subtracts an entry's size (and its key's) from the memory counter without having established that the key is in the store: removing a key that is already gone (deleted by a concurrent command, or lazily expired between the caller's existence test and this call) reduces the counter again, so the reported usage falls below the dataset's size and depends on the history")
+			} else {
+				r.OK(key, w.InstrPos(m.subs[0]), "the counter is reduced only on the 'key is in the store' edge of the entry lookup")
+			}
+		}
 		if len(m.clrs) > 0 {
 			key := name + "|clear"
 			if hasVia(fn, true) {
@@ -1392,6 +1401,36 @@ func ruleNM(w *world.World, r *report.RuleResult) {
 			}
 		}
 	}
+}
+
+// subtractWithoutEntry: a subtraction from the memory counter reachable without passing the
+// "key exists" edge of a comma-ok store lookup. Returns the offending subtraction or nil.
+func subtractWithoutEntry(fn *ssa.Function, m *memFn) ssa.Instruction {
+	const EX world.Facts = 1
+	eg := func(b *ssa.BasicBlock, si int) world.Facts {
+		iff := world.IfOf(b)
+		if iff == nil {
+			return 0
+		}
+		c := iff.Cond
+		neg := false
+		if u, ok := c.(*ssa.UnOp); ok && u.Op.String() == "!" {
+			c, neg = u.X, true
+		}
+		if ex, ok := c.(*ssa.Extract); ok && ex.Index == 1 && isStoreEntryRead(ex.Tuple) {
+			if (si == 0) != neg {
+				return EX
+			}
+		}
+		return 0
+	}
+	must := world.Must(fn, eg, nil, nil)
+	for _, sub := range m.subs {
+		if world.FactsAt(must, sub, nil, nil)&EX == 0 {
+			return sub
+		}
+	}
+	return nil
 }
 
 // replaceWithoutSubtract: an entry write reachable over the "key exists" edge of a store lookup
